@@ -399,6 +399,27 @@ let op_grep_sections = function
            ^ hex_encode (S.init (L.length t) (fun i -> Char.chr (int_of_nat (fst (L.nth t i)))))) secs))
   | _ -> "BADARGS"
 
+(* ---- pager selection (C18)
+   pager_select <auto> <old_less> <config> <delta_pager> <bat_pager> <pager> <resolvable ids csv>
+   each command: "-" = unset, otherwise words "stem:id" separated by ',' ("" = set but empty) *)
+let op_pager_select = function
+  | [ auto; old_less; cfg; dp; bp; pg; res ] ->
+      let word e = match S.split_on_char ':' e with
+        | [ a; b ] -> { Pager.stem = nat_of_int (int_of_string a); Pager.wid = nat_of_int (int_of_string b) }
+        | _ -> failwith "bad word" in
+      let cmd x = if x = "-" then None else Some (if x = "" then [] else L.map word (S.split_on_char ',' x)) in
+      let resolvable = ints_of_csv res in
+      let r w = L.mem (int_of_nat w.Pager.wid) resolvable in
+      (match Pager.select r (auto = "1") (old_less = "1") (cmd cfg) (cmd dp) (cmd bp) (cmd pg) with
+       | Pager.Stdout -> "OK\tSTDOUT"
+       | Pager.Fatal -> "OK\tFATAL"
+       | Pager.Spawn (b, args) ->
+           "OK\tSPAWN " ^ string_of_int (int_of_nat b.Pager.wid) ^ " "
+           ^ S.concat "," (L.map (function
+               | Pager.AUser w -> "U" ^ string_of_int (int_of_nat w.Pager.wid)
+               | Pager.ARaw -> "R" | Pager.ANoInit -> "N" | Pager.AQuit -> "Q") args))
+  | _ -> "BADARGS"
+
 (* blame_run n keys gitflags *)
 let op_blame_run = function
   | [ n; keys; flags ] ->
@@ -421,6 +442,7 @@ let op_blame_spec = function
 let dispatch = function
   | "wrap_line" :: args -> op_wrap_line args
   | "truncate" :: args -> op_truncate args
+  | "pager_select" :: args -> op_pager_select args
   | "hunk_numbers" :: args -> op_hunk_numbers args
   | "bump" :: args -> op_bump args
   | "grep_sections" :: args -> op_grep_sections args
